@@ -3,6 +3,7 @@ package main
 import (
 	"bufio"
 	"fmt"
+	"os"
 	"strings"
 
 	"github.com/go-spring/log"
@@ -53,6 +54,29 @@ func runC18(cases []string, out *bufio.Writer, _ []string) {
 				tags = append(tags, tohex(t))
 			}
 			fmt.Fprintln(out, strings.Join(obs, " ")+" | "+strings.Join(tags, " "))
+		case "R": // a configuration goes live (the registry is read while it is), a registration is attempted, the configuration is destroyed
+			stdout := &syncBuffer{}
+			log.Stdout = stdout
+			if err := log.Refresh(map[string]string{"appender.a.type": "Console"}); err != nil {
+				fmt.Fprintln(out, "refresh-error")
+				continue
+			}
+			n1 := len(log.GetAllTags())
+			acc := "accepted-while-live"
+			if p, _ := guard(func() { log.RegisterTag(unhex(f[1])) }); p {
+				acc = "panic"
+			}
+			n2 := len(log.GetAllTags())
+			log.Destroy()
+			log.Stdout = os.Stdout
+			var tags []string
+			for _, t := range log.GetAllTags() {
+				tags = append(tags, tohex(t))
+			}
+			if n1 != n2 {
+				acc += "-and-the-list-changed"
+			}
+			fmt.Fprintln(out, acc+" | "+strings.Join(tags, " "))
 		case "b":
 			var tag string
 			p, _ := guard(func() { tag = log.BuildTag(unhex(f[1]), unhex(f[2]), unhex(f[3])) })
